@@ -766,6 +766,15 @@ func (fr *Frame) enterLoop(li *loopInfo, phiEntry map[*ssa.Phi]Term) {
 	// 1. invariants hold on entry
 	envEntry := fr.loopEnv(li, func(p *ssa.Phi) (Term, bool) { v, ok := phiEntry[p]; return v, ok }, fr.st)
 	if li.lc != nil {
+		for _, ea := range li.lc.Entry {
+			t, err := envEntry.evalBool(ea.E)
+			if err != nil {
+				panic(evalError{fmt.Sprintf("%s %s entry: %v", shortKey(funcKey(fr.fn)), kprefix, err)})
+			}
+			fr.oblige(kprefix+".entry", ea.Label, t, hdr.Instrs[0].Pos(), "holds when the loop is reached: "+ea.Src)
+		}
+	}
+	if li.lc != nil {
 		for _, inv := range li.lc.Invariants {
 			t, err := envEntry.evalBool(inv.E)
 			if err != nil {
